@@ -186,26 +186,57 @@ Proof.
 Qed.
 
 (* ---------------------------------------------------------------- literal *)
-Record oracle_laws (O : oracles) : Prop := mkLaws {
+(* what the round trip needs to know about an anchor / a float: the library maps its printed form back to it *)
+Definition time_ok (O : oracles) (t : time) : Prop :=
+  o_parse_time O (o_fmt_time O t) = Some t /\ o_fmt_time O t <> [] /\
+  forallb (fun c => memb c time_alphabet) (o_fmt_time O t) = true.
+Definition float_ok (O : oracles) (b : N) : Prop := o_parse_float O (o_fmt_float O b) = Some b.
+
+Record quote_laws (O : oracles) : Prop := mkQLaws {
   (* strconv: Unquote(Quote(s)) = s for every string *)
   law_unquote : forall s, o_unquote O (o_quote O s) = Some s;
   (* Quote output is delimited by double quotes *)
   law_quote_shape : forall s, exists m, o_quote O s = c_quote :: m ++ [c_quote];
   (* Quote escapes tab, newline, form feed, CR; a space appears only if the input has one *)
-  law_quote_ws : forall s, memb c_space s = false -> forallb (fun c => negb (re_space c)) (o_quote O s) = true;
-  (* time: Parse(Format t) = t on the time domain (years 0000..9999, whole-minute offsets) *)
-  law_time_rt : forall t, time_dom t = true -> o_parse_time O (o_fmt_time O t) = Some t;
-  (* Format(RFC3339Nano) output is not empty and uses only 0-9 T : . Z + - *)
-  law_time_alpha : forall t, time_dom t = true ->
-                   o_fmt_time O t <> [] /\ forallb (fun c => memb c time_alphabet) (o_fmt_time O t) = true;
-  (* float64: ParseFloat(%v f) = f for every non-NaN bit pattern *)
-  law_float_rt : forall b, (b <? 18446744073709551616)%N && negb (is_nan b) = true ->
-                 o_parse_float O (o_fmt_float O b) = Some b
+  law_quote_ws : forall s, memb c_space s = false -> forallb (fun c => negb (re_space c)) (o_quote O s) = true
 }.
+
+Record oracle_laws (O : oracles) : Prop := mkLaws {
+  law_quote : quote_laws O;
+  (* time: Parse(Format t) = t, Format t not empty and over 0-9 T : . Z + -, on the time domain
+     (years 0000..9999, whole-minute offsets) *)
+  law_time : forall t, time_dom t = true -> time_ok O t;
+  (* float64: ParseFloat(%v f) = f for every non-NaN bit pattern *)
+  law_float : forall b, (b <? 18446744073709551616)%N && negb (is_nan b) = true -> float_ok O b
+}.
+
+(* for "whatever is accepted prints to text that is accepted again": the library's parsers only return values that
+   their printers map back (time.Parse results format and re-parse to the same instant and offset; ParseFloat results,
+   including NaN, print and re-parse to the same bits) *)
+Record accept_laws (O : oracles) : Prop := mkALaws {
+  alaw_quote : quote_laws O;
+  alaw_time : forall s t, o_parse_time O s = Some t -> time_ok O t;
+  alaw_float : forall s b, o_parse_float O s = Some b -> float_ok O b
+}.
+
+(* generalised domains: the library-dependent parts are stated through time_ok / float_ok *)
+Definition gdom_pred (O : oracles) (p : pred) : Prop :=
+  wf_pred p = true /\ match panchor p with None => True | Some t => time_ok O t end.
+Definition gdom_literal (O : oracles) (l : literal) : Prop :=
+  wf_literal l = true /\ match l with LFloat b => float_ok O b | _ => True end.
+Definition gdom_object (O : oracles) (o : object) : Prop :=
+  match o with
+  | ONode n => dom_node n = true
+  | OPred p => gdom_pred O p
+  | OLit l => gdom_literal O l
+  | OInvalid => False
+  end.
+Definition gdom_triple (O : oracles) (t : triple) : Prop :=
+  dom_node (subj t) = true /\ memb x0c (ntype (subj t)) = false /\ gdom_pred O (tpred t) /\
+  memb c_space (pid (tpred t)) = false /\ gdom_object O (tobj t).
 
 Section WithOracles.
 Variable O : oracles.
-Hypothesis L : oracle_laws O.
 
 Lemma lit_type_last_ok : forall l, exists m d, lit_type_name l = m ++ [d] /\ last_ok d = true /\ ~ In c_quote (lit_type_name l).
 Proof.
@@ -259,7 +290,7 @@ Proof.
     change 1%Z with (zlen [x5b]). apply slice_app_mid.
 Qed.
 
-Lemma literal_roundtrip : forall l, dom_literal l = true -> parse_literal O (print_literal O l) = Ok l.
+Lemma literal_roundtrip_g : forall l, gdom_literal O l -> parse_literal O (print_literal O l) = Ok l.
 Proof.
   intros l Hd. unfold parse_literal. rewrite print_literal_trim.
   destruct (literal_split l) as [Hi [Hv Ht]].
@@ -267,14 +298,14 @@ Proof.
   assert (Hraw : raw = c_quote :: print_lit_value O l ++ s_typem ++ lit_type_name l) by reflexivity.
   rewrite Hraw at 1. replace (negb (Byte.eqb c_quote c_quote)) with false by reflexivity.
   rewrite Hi. rewrite Hv. cbn [idx]. rewrite Ht. cbn [idx].
-  unfold dom_literal in Hd. apply andb_true_iff in Hd. destruct Hd as [Hwf Hdom].
+  destruct Hd as [Hwf Hdom].
   destruct l as [b|z|b|s|bs]; cbn [lit_type_name print_lit_value].
   - destruct b; reflexivity.
   - replace (str_eqb s_int64 s_bool) with false by reflexivity. replace (str_eqb s_int64 s_int64) with true by reflexivity.
     cbn in Hwf. rewrite (parse_fmt_int _ Hwf). reflexivity.
   - replace (str_eqb s_float64 s_bool) with false by reflexivity. replace (str_eqb s_float64 s_int64) with false by reflexivity.
     replace (str_eqb s_float64 s_float64) with true by reflexivity.
-    rewrite (law_float_rt O L _ Hdom). reflexivity.
+    unfold float_ok in Hdom. rewrite Hdom. reflexivity.
   - reflexivity.
   - replace (str_eqb s_blob s_bool) with false by reflexivity. replace (str_eqb s_blob s_int64) with false by reflexivity.
     replace (str_eqb s_blob s_float64) with false by reflexivity. replace (str_eqb s_blob s_text) with false by reflexivity.
@@ -296,26 +327,26 @@ End WithOracles.
 (* ---------------------------------------------------------------- predicate *)
 Section WithOracles2.
 Variable O : oracles.
-Hypothesis L : oracle_laws O.
+Hypothesis Q : quote_laws O.
 
 Definition anchor_text (p : pred) : str := match panchor p with None => [] | Some t => o_fmt_time O t end.
 
-Lemma time_alpha_no : forall t c, time_dom t = true -> memb c time_alphabet = false -> ~ In c (o_fmt_time O t).
+Lemma time_alpha_no : forall t c, time_ok O t -> memb c time_alphabet = false -> ~ In c (o_fmt_time O t).
 Proof.
-  intros t c Ht Hc Hin. destruct (law_time_alpha O L t Ht) as [_ Ha].
+  intros t c Ht Hc Hin. destruct Ht as [_ [_ Ha]].
   rewrite forallb_forall in Ha. specialize (Ha _ Hin). congruence.
 Qed.
 
-Lemma anchor_text_no : forall p c, dom_pred p = true -> memb c time_alphabet = false -> ~ In c (anchor_text p).
+Lemma anchor_text_no : forall p c, gdom_pred O p -> memb c time_alphabet = false -> ~ In c (anchor_text p).
 Proof.
-  intros p c Hd Hc. unfold anchor_text. unfold dom_pred in Hd. apply andb_true_iff in Hd. destruct Hd as [_ Hd].
+  intros p c Hd Hc. unfold anchor_text. destruct Hd as [_ Hd].
   destruct (panchor p) as [t|]; [apply time_alpha_no; assumption | intros H; destruct H].
 Qed.
 
 Lemma print_pred_shape : forall p, exists m,
   print_pred O p = (c_quote :: m) ++ c_quote :: [x40; x5b] ++ anchor_text p ++ [x5d] /\ o_quote O (pid p) = c_quote :: m ++ [c_quote].
 Proof.
-  intros p. destruct (law_quote_shape O L (pid p)) as [m Hm]. exists m. split; [|exact Hm].
+  intros p. destruct (law_quote_shape O Q (pid p)) as [m Hm]. exists m. split; [|exact Hm].
   unfold print_pred, anchor_text. rewrite Hm. cbn [app]. rewrite <- !app_assoc. reflexivity.
 Qed.
 
@@ -328,7 +359,7 @@ Proof.
   apply trim_space_id; reflexivity.
 Qed.
 
-Lemma pred_roundtrip : forall p, dom_pred p = true -> parse_pred O (print_pred O p) = Ok p.
+Lemma pred_roundtrip_g : forall p, gdom_pred O p -> parse_pred O (print_pred O p) = Ok p.
 Proof.
   intros p Hd. unfold parse_pred. rewrite print_pred_trim.
   destruct (print_pred_shape p) as [m [E Hq]]. set (raw := print_pred O p) in *.
@@ -362,11 +393,11 @@ Proof.
     replace (zlen (c_quote :: m) + 3)%Z with (zlen ((c_quote :: m) ++ c_quote :: [x40; x5b])) by zl.
     replace (zlen ((c_quote :: m) ++ c_quote :: [x40; x5b]) + zlen ft + 1 - 1)%Z with (zlen ((c_quote :: m) ++ c_quote :: [x40; x5b]) + zlen ft)%Z by lia.
     apply slice_app_mid. }
-  rewrite Hs2. cbn [idx]. rewrite (law_unquote O L).
-  unfold dom_pred, wf_pred in Hd. apply andb_true_iff in Hd. destruct Hd as [Hid Ha].
+  rewrite Hs2. cbn [idx]. rewrite (law_unquote O Q).
+  destruct Hd as [Hid Ha]. unfold wf_pred in Hid.
   destruct p as [id a]. cbn [pid panchor] in *. destruct id as [|i0 id']; [discriminate|].
   unfold ft, anchor_text. cbn [panchor]. destruct a as [t|]; [|reflexivity].
-  destruct (law_time_alpha O L t Ha) as [Hne Halpha].
+  destruct Ha as [Hrt [Hne Halpha]].
   destruct (o_fmt_time O t) as [|c0 r] eqn:Eft; [contradiction|].
   rewrite at_index_0. cbn [idx].
   assert (Hc0 : Byte.eqb c0 c_quote = false).
@@ -377,7 +408,7 @@ Proof.
   assert (Hcl2 : Byte.eqb cl c_quote = false).
   { apply beqb_neq. intros X. subst cl. apply at_index_some in Hcl. destruct Hcl as [_ [_ Hn]].
     apply nth_error_In in Hn. rewrite forallb_forall in Halpha. specialize (Halpha _ Hn). discriminate. }
-  rewrite Hcl2. rewrite <- Eft. rewrite (law_time_rt O L t Ha). reflexivity.
+  rewrite Hcl2. rewrite Hrt. reflexivity.
 Qed.
 
 (* ---------------------------------------------------------------- object *)
@@ -422,9 +453,9 @@ Proof.
   discriminate.
 Qed.
 
-Lemma object_roundtrip : forall o, dom_object o = true -> parse_object O (print_object O o) = Ok o.
+Lemma object_roundtrip_g : forall o, gdom_object O o -> parse_object O (print_object O o) = Ok o.
 Proof.
-  intros o Hd. unfold parse_object. destruct o as [n|p|l|]; cbn [dom_object print_object] in *.
+  intros o Hd. unfold parse_object. destruct o as [n|p|l|]; cbn [gdom_object print_object] in *.
   - rewrite node_roundtrip by exact Hd. reflexivity.
   - destruct (print_pred_shape p) as [m [E _]].
     assert (Hn : parse_node (print_pred O p) = Err).
@@ -436,11 +467,11 @@ Proof.
         with (((c_quote :: m) ++ c_quote :: [x40; x5b] ++ anchor_text p) ++ [x5d]) in *
         by (cbn [app]; rewrite <- !app_assoc; reflexivity).
       apply parse_literal_rbr_err. exact T. }
-    rewrite Hl. rewrite pred_roundtrip by exact Hd. reflexivity.
+    rewrite Hl. rewrite pred_roundtrip_g by exact Hd. reflexivity.
   - assert (Hn : parse_node (print_literal O l) = Err).
     { pose proof (print_literal_trim O l) as T. unfold print_literal in *. cbn [app] in *. apply parse_node_quote_err. exact T. }
-    rewrite Hn. rewrite (literal_roundtrip O L) by exact Hd. reflexivity.
-  - discriminate.
+    rewrite Hn. rewrite (literal_roundtrip_g O) by exact Hd. reflexivity.
+  - contradiction.
 Qed.
 
 End WithOracles2.
@@ -487,47 +518,45 @@ Qed.
 
 Section WithOracles3.
 Variable O : oracles.
-Hypothesis L : oracle_laws O.
+Hypothesis Q : quote_laws O.
 
-Lemma print_object_first : forall o, dom_object o = true ->
+Lemma print_object_first : forall o, gdom_object O o ->
   exists d r, print_object O o = d :: r /\ memb d [x2f; x22] = true /\ first_ok d = true.
 Proof.
-  intros o Hd. destruct o as [n|p|l|]; cbn [print_object dom_object] in *.
+  intros o Hd. destruct o as [n|p|l|]; cbn [print_object gdom_object] in *.
   - unfold dom_node, wf_node in Hd. apply andb_true_iff in Hd. destruct Hd as [Hd _]. apply andb_true_iff in Hd. destruct Hd as [Ht _].
     destruct (type_ok_shape _ Ht) as [r Hr]. unfold print_node. rewrite Hr. cbn [app]. eexists _, _. split; [reflexivity|]. split; reflexivity.
-  - destruct (print_pred_shape O L p) as [m [E _]]. rewrite E. cbn [app]. eexists _, _. split; [reflexivity|]. split; reflexivity.
+  - destruct (print_pred_shape O Q p) as [m [E _]]. rewrite E. cbn [app]. eexists _, _. split; [reflexivity|]. split; reflexivity.
   - unfold print_literal. cbn [app]. eexists _, _. split; [reflexivity|]. split; reflexivity.
-  - discriminate.
+  - contradiction.
 Qed.
 
-Lemma print_object_last : forall o, dom_object o = true ->
+Lemma print_object_last : forall o, gdom_object O o ->
   exists m d, print_object O o = m ++ [d] /\ last_ok d = true.
 Proof.
-  intros o Hd. destruct o as [n|p|l|]; cbn [print_object dom_object] in *.
+  intros o Hd. destruct o as [n|p|l|]; cbn [print_object gdom_object] in *.
   - unfold print_node. exists (ntype n ++ [c_lt] ++ nid n), c_gt. split; [rewrite <- !app_assoc; reflexivity | reflexivity].
-  - destruct (print_pred_shape O L p) as [m [E _]]. rewrite E.
+  - destruct (print_pred_shape O Q p) as [m [E _]]. rewrite E.
     exists ((c_quote :: m) ++ c_quote :: [x40; x5b] ++ anchor_text O p), x5d. split; [cbn [app]; rewrite <- !app_assoc; reflexivity | reflexivity].
   - unfold print_literal. destruct (lit_type_last_ok l) as [m [d [E [Hl _]]]]. rewrite E.
     exists ([c_quote] ++ print_lit_value O l ++ s_typem ++ m), d. split; [rewrite <- !app_assoc; reflexivity | exact Hl].
-  - discriminate.
+  - contradiction.
 Qed.
 
 Lemma no_ws_of_no : forall s, (forall c, In c s -> re_space c = false) -> forallb (fun x => negb (re_space x)) s = true.
 Proof. intros s H. apply forallb_forall. intros x Hx. rewrite (H x Hx). reflexivity. Qed.
 
-Lemma triple_roundtrip : forall t, dom_triple t = true -> parse_triple O (print_triple O t) = Ok t.
+Lemma triple_roundtrip_g : forall t, gdom_triple O t -> parse_triple O (print_triple O t) = Ok t.
 Proof.
-  intros [s p o] Hd. unfold dom_triple in Hd. cbn [subj tpred tobj] in Hd.
-  apply andb_true_iff in Hd. destruct Hd as [Hd Ho]. apply andb_true_iff in Hd. destruct Hd as [Hd Hsp].
-  apply andb_true_iff in Hd. destruct Hd as [Hd Hp]. apply andb_true_iff in Hd. destruct Hd as [Hs Hff].
-  apply negb_true_iff in Hsp. apply negb_true_iff in Hff.
+  intros [s p o] Hd. unfold gdom_triple in Hd. cbn [subj tpred tobj] in Hd.
+  destruct Hd as [Hs [Hff [Hp [Hsp Ho]]]].
   pose proof Hs as Hs'. unfold dom_node, wf_node in Hs'. apply andb_true_iff in Hs'. destruct Hs' as [Hs' Hlt].
   apply andb_true_iff in Hs'. destruct Hs' as [Hty Hid].
   destruct s as [ty id]. cbn [ntype nid] in *.
   destruct (type_ok_shape _ Hty) as [tr Htr].
   destruct (print_object_first o Ho) as [d [orest [Eo [Hdc Hdf]]]].
   destruct (print_object_last o Ho) as [om [od [Eo2 Hod]]].
-  destruct (print_pred_shape O L p) as [qm [Ep Hq]].
+  destruct (print_pred_shape O Q p) as [qm [Ep Hq]].
   set (sN := print_node (mkNode ty id)). set (sP := print_pred O p) in *. set (sO := print_object O o) in *.
   set (raw := print_triple O (mkTriple (mkNode ty id) p o)).
   assert (Hraw : raw = sN ++ [c_tab] ++ sP ++ [c_tab] ++ sO) by reflexivity.
@@ -578,10 +607,10 @@ Proof.
     replace ((c_quote :: qm) ++ c_quote :: [x40; x5b] ++ anchor_text O p) with (o_quote O (pid p) ++ [x40; x5b] ++ anchor_text O p) in Hc
       by (rewrite Hq; cbn [app]; rewrite <- !app_assoc; reflexivity).
     apply in_app_or in Hc. destruct Hc as [Hc|Hc].
-    - pose proof (law_quote_ws O L _ Hsp) as W. rewrite forallb_forall in W. specialize (W _ Hc). apply negb_true_iff in W. exact W.
+    - pose proof (law_quote_ws O Q _ Hsp) as W. rewrite forallb_forall in W. specialize (W _ Hc). apply negb_true_iff in W. exact W.
     - apply in_app_or in Hc. destruct Hc as [Hc|Hc].
       + destruct Hc as [Hc|[Hc|[]]]; subst c; reflexivity.
-      + destruct (re_space c) eqn:Ec; [|reflexivity]. exfalso. revert Hc. apply (anchor_text_no O L p c Hp).
+      + destruct (re_space c) eqn:Ec; [|reflexivity]. exfalso. revert Hc. apply (anchor_text_no O p c Hp).
         unfold re_space in Ec. apply memb_In in Ec. cbn in Ec.
         destruct Ec as [Ec|[Ec|[Ec|[Ec|[Ec|[]]]]]]; subst c; reflexivity. }
   set (sPh := (c_quote :: qm) ++ c_quote :: [x40; x5b] ++ anchor_text O p) in *.
@@ -607,8 +636,53 @@ Proof.
     replace (Z.of_nat (length sN + 1 + length sPh + 3) - 1)%Z with (zlen (sN ++ [c_tab] ++ sP ++ [c_tab])) by (rewrite EsP; zl).
     apply slice_suffix. }
   rewrite Hso. cbn [idx].
-  unfold sN. rewrite (node_roundtrip _ Hs). unfold sP. rewrite (pred_roundtrip O L _ Hp).
-  unfold sO. rewrite (object_roundtrip O L _ Ho). reflexivity.
+  unfold sN. rewrite (node_roundtrip _ Hs). unfold sP. rewrite (pred_roundtrip_g O Q _ Hp).
+  unfold sO. rewrite (object_roundtrip_g O Q _ Ho). reflexivity.
 Qed.
 
 End WithOracles3.
+
+(* ---------------------------------------------------------------- the documented domain lies in the generalised one *)
+Section Instances.
+Variable O : oracles.
+Hypothesis L : oracle_laws O.
+
+Lemma dom_pred_g : forall p, dom_pred p = true -> gdom_pred O p.
+Proof.
+  intros p H. unfold dom_pred in H. apply andb_true_iff in H. destruct H as [H1 H2]. split; [exact H1|].
+  destruct (panchor p) as [t|]; [apply (law_time O L); exact H2 | exact I].
+Qed.
+
+Lemma dom_literal_g : forall l, dom_literal l = true -> gdom_literal O l.
+Proof.
+  intros l H. unfold dom_literal in H. apply andb_true_iff in H. destruct H as [H1 H2]. split; [exact H1|].
+  destruct l; try exact I. apply (law_float O L). exact H2.
+Qed.
+
+Lemma dom_object_g : forall o, dom_object o = true -> gdom_object O o.
+Proof.
+  intros [n|p|l|] H; cbn [dom_object gdom_object] in *; [exact H | apply dom_pred_g; exact H | apply dom_literal_g; exact H | discriminate].
+Qed.
+
+Lemma dom_triple_g : forall t, dom_triple t = true -> gdom_triple O t.
+Proof.
+  intros t H. unfold dom_triple in H.
+  apply andb_true_iff in H. destruct H as [H Ho]. apply andb_true_iff in H. destruct H as [H Hsp].
+  apply andb_true_iff in H. destruct H as [H Hp]. apply andb_true_iff in H. destruct H as [Hs Hff].
+  apply negb_true_iff in Hsp. apply negb_true_iff in Hff.
+  repeat split; try assumption; [apply dom_pred_g; exact Hp | apply dom_pred_g; exact Hp | apply dom_object_g; exact Ho].
+Qed.
+
+Lemma pred_roundtrip : forall p, dom_pred p = true -> parse_pred O (print_pred O p) = Ok p.
+Proof. intros p H. apply (pred_roundtrip_g O (law_quote O L)). apply dom_pred_g. exact H. Qed.
+
+Lemma literal_roundtrip : forall l, dom_literal l = true -> parse_literal O (print_literal O l) = Ok l.
+Proof. intros l H. apply literal_roundtrip_g. apply dom_literal_g. exact H. Qed.
+
+Lemma object_roundtrip : forall o, dom_object o = true -> parse_object O (print_object O o) = Ok o.
+Proof. intros o H. apply (object_roundtrip_g O (law_quote O L)). apply dom_object_g. exact H. Qed.
+
+Lemma triple_roundtrip : forall t, dom_triple t = true -> parse_triple O (print_triple O t) = Ok t.
+Proof. intros t H. apply (triple_roundtrip_g O (law_quote O L)). apply dom_triple_g. exact H. Qed.
+
+End Instances.
